@@ -402,6 +402,67 @@ func worker(w *runner.W) {
 		}
 	}
 
+	// ---- L: many stages / many arguments (S1 + S2): everything above has a
+	// handful of stages per template; anything in the compiler or the compiled
+	// builder that depends on the *number* of stages or arguments is only
+	// reachable with a size dimension
+	if part == "all" || part == "long" {
+		maxN := 300
+		if w.Quick() {
+			maxN = 100
+		}
+		type seg struct{ text, val string }
+		segOf := func(kind byte, i int) seg {
+			switch kind {
+			case 'l':
+				t := "," + itoa(i) + ";"
+				return seg{t, t}
+			case 'd':
+				return seg{"{" + itoa(i%3) + "}", matchValue(i % 3)}
+			case 'k':
+				return seg{"{k}", keyValue("k")}
+			case 'c':
+				return seg{"{g w" + itoa(i) + "}", "g(w" + itoa(i) + ")"}
+			case 'e':
+				return seg{"{g {" + itoa(i%3) + "} w" + itoa(i) + "}", "g(" + matchValue(i%3) + "|w" + itoa(i) + ")"}
+			}
+			panic("segment kind")
+		}
+		for _, cyc := range []string{"d", "ld", "cl", "lcd", "c", "dk", "e", "lce", "cd", "l"} {
+			for n := 1; n <= maxN; n++ {
+				if !own() {
+					continue
+				}
+				if w.Expired() {
+					return
+				}
+				var tb, vb strings.Builder
+				var args, vals []string
+				for i := 1; i <= n; i++ {
+					sg := segOf(cyc[(i-1)%len(cyc)], i)
+					tb.WriteString(sg.text)
+					vb.WriteString(sg.val)
+					args = append(args, sg.text)
+					vals = append(vals, sg.val)
+				}
+				tpl, want := tb.String(), vb.String()
+				w.SetCase(func() any { return Case{Kind: "expect", Template: tpl, Want: want} })
+				ok := c.expect(tpl, want, "C09/long/template-of-many-stages", fmt.Sprintf("%d segments, cycle %s", n, cyc))
+				ok = c.expect(`{f "`+tpl+`"}`, "f("+want+")", "C09/long/argument-of-many-stages", fmt.Sprintf("%d segments, cycle %s", n, cyc)) && ok
+				ok = c.expect("{0}{g x \""+tpl+"\"}|{k}", matchValue(0)+"g(x|"+want+")|"+keyValue("k"), "C09/long/argument-of-many-stages", fmt.Sprintf("%d segments, cycle %s", n, cyc)) && ok
+				// the same segments as n separate arguments of one call
+				ok = c.expect("{f "+strings.Join(args, " ")+"}", "f("+strings.Join(vals, "|")+")", "C09/long/call-with-many-arguments", fmt.Sprintf("%d arguments, cycle %s", n, cyc)) && ok
+				w.Eval(ok)
+				w.Add("long_templates", 4)
+				w.Outcome("long", cyc, itoa(n))
+				if w.WantSample() && n == 40 {
+					w.Sample(map[string]string{"template": tpl, "value": want})
+				}
+			}
+		}
+		w.Max("max_long_segments", int64(maxN))
+	}
+
 	// ---- D: raw strings over the syntax alphabet
 	rawCase := func(s string) bool {
 		if !own() {
@@ -478,8 +539,8 @@ func main() {
 			if tp.fullDepth2 {
 				full = fmt.Sprintf("at most %d deviations", tp.fullBound)
 			}
-			return fmt.Sprintf("(A) every string with 0..%d symbols over {%s} and 1..%d symbols over {%s}, rendered with minimal escapes (only \\ { }) and with every character escaped, alone and as `E{0}E{k}`, must evaluate to the string; (B) expression trees f(args)/g(args) with 1..3 arguments over leaves {a, \"b c\", \"\", {0}, {1}, {k}, p{1}} and, below f, calls g(1..2 leaves); printed with every combination of argument separator {%s}, optional quoting of words, lookups and quote-free calls, leading/trailing blank inside the braces, and literal neighbours (`xTy {1}{0}`): all combinations for depth-1 trees (three arguments: %s) and depth-2 trees with one argument, at most %d non-default choices for depth-2 trees with 2 arguments and one inner call, at most %d for 2 arguments/two inner calls, at most %d for 3 arguments/one inner call, 3 arguments with more inner calls: %s; evaluated with recording functions in a private KeyBuilder (optimisation on and off) against the value of the tree; (C) every single-character deletion and every insertion of one of {%s} at every position of the plain print of the depth-1 trees (prints with at most %d non-default choices) and, in the thorough tier, of the depth-2 trees with at most 2 arguments, judged by the reference reading; (E) trees whose leaves need escaping inside call arguments or are unquoted non-ASCII words: leaves {c\\d, C:\\\\temp\\new, o{p}, l<LF>m, <TAB>z<CR>, q\"r, 's t', \\\"\\{\\ \\n, voilà, Ångström, Škoda, 😅🤠, é, {voilà}, {Å}, {Š😅}, {1}, w\\{0}, {k}<LF>{{à}} (UTF-8 encodings containing the bytes 0x85/0xA0, a 4-byte rune); trees: each lookup alone, f(x), f(g(x)), f(g(f(x))), f(x,y), f(g(x),y), f(y,g(x)), f(g(x,y)) for all leaves x,y; printed by applying, for every enclosing pass (template scan, argument split, argument compilation: 2d+1 passes at call depth d), the inverse of that pass to all text that is not syntax of that level; every combination of quoted/unquoted per argument, blank/tab separators, control characters raw or as \\n \\t \\r, and literal neighbours `\\\\T\\{{0}` (depth-2 trees with two leaves: %s); must evaluate to the tree value; (D) every string with 0..%d symbols over {%s} and the strings with a tab among 1..%d symbols over {%s}, judged by the reference reading (value / must be a compile error / not settled); no panic anywhere. non-trivial = (A) non-empty string evaluated, (B,E) compiled and compared, (C,D) the reference reading settles the template (value or must-error) [D: and it contains a statement]",
-				tp.litLen, show(tp.litAlphabet), tp.litLen2, show(tp.litAlphabet2), show(tp.seps), d1, tp.b21, tp.b22, tp.b31, full, show(tp.mutIns), tp.mutBound, eb, tp.rawLen, show(tp.rawAlphabet), tp.rawLen2, show(tp.rawAlphabet2))
+			return fmt.Sprintf("(A) every string with 0..%d symbols over {%s} and 1..%d symbols over {%s}, rendered with minimal escapes (only \\ { }) and with every character escaped, alone and as `E{0}E{k}`, must evaluate to the string; (B) expression trees f(args)/g(args) with 1..3 arguments over leaves {a, \"b c\", \"\", {0}, {1}, {k}, p{1}} and, below f, calls g(1..2 leaves); printed with every combination of argument separator {%s}, optional quoting of words, lookups and quote-free calls, leading/trailing blank inside the braces, and literal neighbours (`xTy {1}{0}`): all combinations for depth-1 trees (three arguments: %s) and depth-2 trees with one argument, at most %d non-default choices for depth-2 trees with 2 arguments and one inner call, at most %d for 2 arguments/two inner calls, at most %d for 3 arguments/one inner call, 3 arguments with more inner calls: %s; evaluated with recording functions in a private KeyBuilder (optimisation on and off) against the value of the tree; (C) every single-character deletion and every insertion of one of {%s} at every position of the plain print of the depth-1 trees (prints with at most %d non-default choices) and, in the thorough tier, of the depth-2 trees with at most 2 arguments, judged by the reference reading; (E) trees whose leaves need escaping inside call arguments or are unquoted non-ASCII words: leaves {c\\d, C:\\\\temp\\new, o{p}, l<LF>m, <TAB>z<CR>, q\"r, 's t', \\\"\\{\\ \\n, voilà, Ångström, Škoda, 😅🤠, é, {voilà}, {Å}, {Š😅}, {1}, w\\{0}, {k}<LF>{{à}} (UTF-8 encodings containing the bytes 0x85/0xA0, a 4-byte rune); trees: each lookup alone, f(x), f(g(x)), f(g(f(x))), f(x,y), f(g(x),y), f(y,g(x)), f(g(x,y)) for all leaves x,y; printed by applying, for every enclosing pass (template scan, argument split, argument compilation: 2d+1 passes at call depth d), the inverse of that pass to all text that is not syntax of that level; every combination of quoted/unquoted per argument, blank/tab separators, control characters raw or as \\n \\t \\r, and literal neighbours `\\\\T\\{{0}` (depth-2 trees with two leaves: %s); must evaluate to the tree value; (D) every string with 0..%d symbols over {%s} and the strings with a tab among 1..%d symbols over {%s}, judged by the reference reading (value / must be a compile error / not settled); (L) templates of 1..%d segments laid out by 10 cycles of {literal, constant call, group, key, call on a group}, as the template itself, as one quoted argument of a call, and as that many separate arguments of one call, must evaluate to the concatenation / the call the segments dictate; no panic anywhere. non-trivial = (A) non-empty string evaluated, (B,E) compiled and compared, (C,D) the reference reading settles the template (value or must-error) [D: and it contains a statement]",
+				tp.litLen, show(tp.litAlphabet), tp.litLen2, show(tp.litAlphabet2), show(tp.seps), d1, tp.b21, tp.b22, tp.b31, full, show(tp.mutIns), tp.mutBound, eb, tp.rawLen, show(tp.rawAlphabet), tp.rawLen2, show(tp.rawAlphabet2), map[bool]int{true: 100, false: 300}[tier != "thorough"])
 		},
 		Assumptions: func(string) []string {
 			return []string{
